@@ -245,7 +245,7 @@ def replay(path):
 def configs(tier):
     if tier == 'quick':
         return common.code_configs('quick', deformed=True, max_n=100)
-    return common.code_configs('thorough', deformed=True, max_n=200)
+    return common.code_configs('thorough', deformed=True, max_n=260)
 
 
 def main(argv=None):
@@ -264,7 +264,7 @@ def main(argv=None):
                      'for symbolic operands); validated differentially in the engine self-test',
                      'H, logicals taken from the real code object (their validity is C01/C02)'],
         bounds=dict(symbolic='all 2n bits of the residual error (4^n errors per configuration)',
-                    configurations=len(cfgs), max_n=100 if a.tier == 'quick' else 200),
+                    configurations=len(cfgs), max_n=100 if a.tier == 'quick' else 260),
         stubs=['scipy.sparse.csr_matrix -> symx.csr_shim (panqec.bsparse, panqec.bpauli)'],
         outside=['lattice sizes beyond the configuration list', 'run_once wiring (C11)'])
 
